@@ -256,27 +256,31 @@ class ParseContext(ParserEngine):
 
     @contextmanager
     def nameset(self, name: str) -> Any:
+        mark = self.state.cst
         yield
-        self.state.nameset(name)
+        self.state.nameset(name, self.state.valuesince(mark))
 
     _setname = nameset
 
     @contextmanager
     def nameadd(self, name: str) -> Any:
+        mark = self.state.cst
         yield
-        self.state.nameadd(name)
+        self.state.nameadd(name, self.state.valuesince(mark))
 
     _addname = nameadd
 
     @contextmanager
     def result(self) -> Any:
+        mark = self.state.cst
         yield
-        self.state.nameset(_AT_)
+        self.state.nameset(_AT_, self.state.valuesince(mark))
 
     @contextmanager
     def resultadd(self) -> Any:
+        mark = self.state.cst
         yield
-        self.state.nameadd(_AT_)
+        self.state.nameadd(_AT_, self.state.valuesince(mark))
 
     def expcall(self, exp: Func) -> Any:
         try:
